@@ -143,7 +143,7 @@ static int filter_assembly_str_fsa(const char unfiltered_str[],
   int i = 0;
   while (unfiltered_str[i] != ';' && unfiltered_str[i] != '%' &&
          unfiltered_str[i] != '\r' && unfiltered_str[i] != '\n' &&
-         unfiltered_str[i] != '\0' && j < MAX_LINE_LEN) {
+         unfiltered_str[i] != '\0') {
     switch (filter_state) {
     case BEGIN:
       if (unfiltered_str[i] >= 'A' && unfiltered_str[i] <= 'z') {
@@ -163,6 +163,11 @@ static int filter_assembly_str_fsa(const char unfiltered_str[],
       if (unfiltered_str[i] > '!')
         filter_str[j++] = (char)tolower(unfiltered_str[i]);
       break;
+    }
+    // filter_str must keep room for its terminating '\0'
+    if (j >= MAX_LINE_LEN) {
+      fprintf(stderr, "assembyline: line too long\n");
+      return ASM_ERROR;
     }
     // last printable ascii character
     if ((unsigned char)unfiltered_str[i] > '~') {
